@@ -72,6 +72,7 @@ static void pair_desc(uint64_t idx, void *ctx, char *b, size_t n)
 }
 static void pair_case(uint64_t idx, void *ctx)
 {
+    mc_strings_prelude();
     (void) ctx;
     char *x = mkstr(idx / NSTR, NULL, 0), *y = mkstr(idx % NSTR, NULL, 0);     /* exact-size heap blocks */
     const char *shape = shape_pair(x, y);
@@ -120,6 +121,7 @@ static void wf_desc(uint64_t idx, void *ctx, char *b, size_t n)
 }
 static void wf_case(uint64_t idx, void *ctx)
 {
+    mc_strings_prelude();
     wf_t x, y; char tx[80], ty[80]; (void) ctx;
     wf_decode(idx / WF_COUNT, &x); wf_decode(idx % WF_COUNT, &y); wf_text(&x, tx, sizeof tx); wf_text(&y, ty, sizeof ty);
     char *hx = mc_heapstr(tx), *hy = mc_heapstr(ty);
